@@ -15,6 +15,10 @@ booleans `0`/`1`; server name = any token, `!` = does not parse as a `ServerName
   init <id> | reload <id> | reload-fail      -> `ok`
   accept                                     -> `<id>` (identity the new connection is served with)
   sessions                                   -> `<id>,<id>,...` | `-`
+  rinit <id> | rreload <id> | rreload-fail   -> `ok`   (listener with per-configuration session caches)
+  raccept <ticket|->                         -> `<id> <full|resumed> cache=<n>` (identity served, handshake
+                                                kind, number of the serving configuration's cache = the
+                                                ticket a client admitted by this connection holds)
 -/
 import Penguin.Basic.Bytes
 import Penguin.Basic.Loop
@@ -25,6 +29,7 @@ open Penguin Penguin.Tls Penguin.Tls.Concrete
 structure DrvState where
   sys : Ca := []
   listener : Listener Nat := Listener.init 0
+  rlistener : RListener Nat := RListener.init 0
 
 def parseBool : String → Option Bool
   | "0" => some false
@@ -119,6 +124,26 @@ def step (st : DrvState) (line : String) : DrvState × String :=
     ({ st with listener := l }, match l.sessions.getLast? with | some i => toString i | none => "bad-op")
   | ["sessions"] =>
     (st, if st.listener.sessions.isEmpty then "-" else ",".intercalate (st.listener.sessions.map toString))
+  | ["rinit", id] =>
+    match id.toNat? with
+    | some id => ({ st with rlistener := RListener.init id }, "ok")
+    | none => (st, "bad-op")
+  | ["rreload", id] =>
+    match id.toNat? with
+    | some id => ({ st with rlistener := st.rlistener.step (.reload (some id)) }, "ok")
+    | none => (st, "bad-op")
+  | ["rreload-fail"] => ({ st with rlistener := st.rlistener.step (.reload none) }, "ok")
+  | ["raccept", t] =>
+    let ticket : Option (Option Nat) := if t = "-" then some none else t.toNat?.map some
+    match ticket with
+    | none => (st, "bad-op")
+    | some ticket =>
+      let l := st.rlistener.step (.accept ticket)
+      match l.sessions.getLast? with
+      | some (i, k) =>
+        ({ st with rlistener := l },
+          s!"{i} {match k with | .full => "full" | .resumed => "resumed"} cache={l.cache}")
+      | none => (st, "bad-op")
   | _ => (st, "bad-op")
 
 def main : IO Unit := driverLoop step {}
